@@ -682,13 +682,13 @@ def _merge_stats(a, b):
         a["required"][k] = a["required"].get(k, 0) + v
     for k, v in b["covered"].items():
         a["covered"][k] = a["covered"].get(k, 0) + v
-    room = 6 - len(a["samples"])
+    room = 64 - len(a["samples"])
     if room > 0:
         a["samples"].extend(b["samples"][:room])
 
 
 def _explore_serial(harness, roots, deadline, max_paths, blockers, reset, stop_at_pending=None,
-                    max_cex=12):
+                    max_cex=12, keep_samples=4):
     st = _new_stats()
     work = list(roots)
     while work:
@@ -706,7 +706,7 @@ def _explore_serial(harness, roots, deadline, max_paths, blockers, reset, stop_a
         # breadth-first while splitting for the worker pool (the frontier must grow), depth-first otherwise
         prefix = work.pop(0) if stop_at_pending is not None else work.pop()
         ctx, status, err = _run_path(harness, prefix, deadline, blockers, reset)
-        _merge(st, ctx, status, err, 4)
+        _merge(st, ctx, status, err, keep_samples)
         work.extend(ctx.pending)
     return st, work
 
@@ -717,27 +717,29 @@ _POOL_ARGS: dict = {}
 def _pool_job(prefix):
     a = _POOL_ARGS
     st, left = _explore_serial(a["harness"], [prefix], a["deadline"], a["max_paths"],
-                               a["blockers"], a["reset"])
+                               a["blockers"], a["reset"], keep_samples=a["keep_samples"])
     if left:
         st["exhausted"] = False
     return st
 
 
-def explore(harness, *, timeout=120.0, max_paths=200000, workers=1, blockers=None, reset=None):
+def explore(harness, *, timeout=120.0, max_paths=200000, workers=1, blockers=None, reset=None,
+            keep_samples=4):
     """Explore every feasible path of `harness(ctx)`.  Returns a stats dict."""
     t0 = time.time()
     deadline = t0 + timeout
     if workers <= 1:
-        st, left = _explore_serial(harness, [[]], deadline, max_paths, blockers, reset)
+        st, left = _explore_serial(harness, [[]], deadline, max_paths, blockers, reset,
+                                   keep_samples=keep_samples)
         if left:
             st["exhausted"] = False
     else:
         st, left = _explore_serial(harness, [[]], deadline, max_paths, blockers, reset,
-                                   stop_at_pending=workers * 16)
+                                   stop_at_pending=workers * 16, keep_samples=keep_samples)
         if left and st["exhausted"]:
             _POOL_ARGS.update(harness=harness, deadline=deadline,
-                              max_paths=max(1, max_paths // max(1, len(left))),
-                              blockers=blockers, reset=reset)
+                              max_paths=max_paths,
+                              blockers=blockers, reset=reset, keep_samples=max(1, keep_samples // 4))
             mp = multiprocessing.get_context("fork")
             with mp.Pool(min(workers, len(left))) as pool:
                 for sub in pool.imap_unordered(_pool_job, left, 1):
